@@ -26,6 +26,8 @@ pub struct Report {
     pub viol_counts: BTreeMap<String, u64>,
     pub inconclusive: Vec<String>,
     pub cases: u64,
+    /// (case index, touched-facility mask, transcript hash) per session, for cross-build comparison (C16)
+    pub transcripts: Vec<(u64, u32, u64)>,
 }
 
 impl Report {
@@ -153,6 +155,10 @@ impl Report {
                         })
                         .collect(),
                 ),
+            )
+            .set(
+                "transcripts",
+                J::Arr(self.transcripts.iter().map(|t| J::Arr(vec![J::Int(t.0 as i64), J::Int(t.1 as i64), J::Str(format!("{:016x}", t.2))])).collect()),
             )
             .set(
                 "inconclusive",
